@@ -508,7 +508,7 @@ end Invariant
 section Traced
 variable {σ V S : Type} (I : Interp σ V) (snap : σ → Int → S)
 
-theorem traced_sim (on : Bool) : Sim (traced I snap on) I Prod.fst where
+theorem traced_sim (on reset : Bool) : Sim (traced I snap on reset) I Prod.fst where
   lags := rfl
   leads := rfl
   check _ _ := rfl
@@ -517,7 +517,7 @@ theorem traced_sim (on : Bool) : Sim (traced I snap on) I Prod.fst where
   zeroNF := rfl
   copyOffset _ _ _ := rfl
   before o u t := by
-    show (Prod.fst ((traced I snap on).before o u t).1, ((traced I snap on).before o u t).2) = _
+    show (Prod.fst ((traced I snap on reset).before o u t).1, ((traced I snap on reset).before o u t).2) = _
     simp only [traced]
     rcases h : I.before o u.1 t with ⟨u', b⟩
     cases b <;> rfl
